@@ -17,6 +17,9 @@
 #ifndef C4_SZ
 #define C4_SZ 3
 #endif
+#ifndef C4_HDR_MAX
+#define C4_HDR_MAX 255
+#endif
 #define C4_PAY (VERIF_N * C4_SZ)      /* longest possible payload */
 #define C4_LOG (C4_PAY + C4_SZ + 2)   /* write log capacity: payload + one zero-fill + slack */
 
@@ -88,7 +91,7 @@ typedef struct {
     IN_mr mr;
     unsigned char B[VERIF_N][C4_SZ];
     char dg[VERIF_N][2];
-    size_t cut;
+    size_t cut, bad; unsigned char flip; int use_wcb;
 } IN_c4;
 V_INPUT(IN_c4)
 
@@ -100,11 +103,44 @@ static unsigned char B_at(IN_mr *in, size_t off) {
     return v;
 }
 
+static unsigned m_ucb;
+static size_t c4_user_wcb(void *p, size_t l, size_t c, void *d) { m_ucb++; return l * c; }
+
+/* C05, bounded: what an unfaithful response (one payload byte wrong) leads to */
+static void c5_after_corrupt(IN_mr *in, zckCtx *zck, bool req[VERIF_N], int valid0[VERIF_N], int bad, int fed_ok) {
+    V_ASSERT(!fed_ok, "C05.zck_write_chunk_cb.a_checksum_mismatch_is_reported_by_the_callback");
+    if(bad < 0) return;
+    V_ASSERT(b_chunks[bad].valid == -1, "C05.set_chunk_valid.mismatch_means_marked_failed");
+    for(int i = 0; i < VERIF_N; i++)
+        if(i < in->nc && i != bad) {
+            if(!req[i]) V_ASSERT(b_chunks[i].valid == valid0[i], "C05.compose.no_other_validity_flag_changed");
+            else V_ASSERT(b_chunks[i].valid == (i < bad ? 1 : 0), "C05.compose.chunks_before_the_bad_one_are_valid_later_ones_untouched");
+        }
+    V_ASSERT(!m_model_overflow, "C04.model.write_log_within_model_bound");
+    bool b_in_bad = IN_EXTENT(in, bad, in->b); int last = -1;
+    for(unsigned k = 0; k < C4_LOG; k++)
+        if(k < m_nw) {
+            bool inreq = false, inother = false;
+            for(int i = 0; i < VERIF_N; i++) if(i < in->nc && IN_EXTENT(in, i, m_woff[k])) { if(req[i]) inreq = true; else inother = true; }
+            V_ASSERT(inreq, "C05.compose.no_byte_outside_the_extents_of_the_requested_chunks_is_written");
+            V_ASSERT(!inother, "C05.compose.chunks_not_requested_are_not_written");
+            V_ASSERT(m_woff[k] >= HDR(in), "C05.compose.the_header_is_not_written");
+            if(m_woff[k] == in->b) last = (int)k;
+        }
+    V_ASSERT(!b_in_bad || (last >= 0 && m_wval[last] == 0), "C05.set_chunk_valid.mismatch_means_zero_filled");
+    V_COVER(bad == VERIF_N - 1 && VERIF_N > 1 && req[0] && b_chunks[0].valid == 1 && b_in_bad);      /* first chunk accepted, last one refused and zeroed */
+    V_COVER(bad == 0 && in->nc == VERIF_N && req[VERIF_N - 1] && b_chunks[VERIF_N - 1].valid == 0);  /* refused before the next chunk was started */
+#ifdef VERIF_C04_VIA_CB
+    V_COVER(m_ucb > 0);                                                                                 /* client callback saw the accepted first piece */
+#endif
+}
+
 void h_c04_compose(void) {
     IN_c4 inn = nondet_IN_c4();
     IN_mr *in = &inn.mr;
     zckCtx *zck = mk_target(in);
     V_ASSUME(in->anyz.error_state == 0);
+    V_ASSUME(in->lead_size <= C4_HDR_MAX && in->header_length <= C4_HDR_MAX);   /* bound: small header (keeps the 64-bit offset arithmetic cheap) */
     int missing0 = 0, valid0[VERIF_N];
     for(int i = 0; i < VERIF_N; i++) {
         valid0[i] = 0;
@@ -125,10 +161,10 @@ void h_c04_compose(void) {
     zck->mode = ZCK_MODE_READ;
     zck->chunk_hash_type.digest_size = in->dsize;
     zck->check_chunk_hash.ctx = NULL; zck->check_chunk_hash.type = NULL;
-    m_fd = zck->fd; m_pos = 0; m_nw = 0; m_seeks = m_inits = m_verdicts = 0; m_fed = 0; m_model_overflow = 0;
+    m_fd = zck->fd; m_pos = 0; m_nw = 0; m_seeks = m_inits = m_verdicts = 0; m_fed = 0; m_model_overflow = 0; m_ucb = 0;
     V_ASSUME(in->max_ranges >= -1 && in->max_ranges <= VERIF_N + 1);
 
-    V_ASSERT(zck_missing_chunks(zck) == missing0, "C04.zck_missing_chunks.counts_the_chunks_with_valid_0");
+    { int mc0 = zck_missing_chunks(zck); V_ASSERT(mc0 == missing0, "C04.zck_missing_chunks.counts_the_chunks_with_valid_0"); }
 
     /* ---- 1. ask for what is missing (real zck_get_missing_range) ---- */
     zckRange *r = zck_get_missing_range(zck, in->max_ranges);
@@ -172,26 +208,52 @@ void h_c04_compose(void) {
     zckDL *dl = zck_dl_init(zck);
     V_ASSERT(dl != NULL, "C04.zck_dl_init.answers");
     if(dl == NULL) return;
-    V_ASSERT(zck_dl_set_range(dl, r), "C04.zck_dl_set_range.accepts");
-    int fed_ok = 1; size_t cut = inn.cut;
+    { bool sr = zck_dl_set_range(dl, r); V_ASSERT(sr, "C04.zck_dl_set_range.accepts"); }
+    size_t cut = inn.cut;
 #ifdef VERIF_C04_ONECALL
     cut = n;
 #else
     V_ASSUME(cut >= 1 && cut < n);      /* two non-empty pieces (needs n >= 2) */
 #endif
-    if(n > 0) {
-        int r1 = dl_write_range(dl, resp, cut);
-        V_ASSERT(r1 != 0, "C04.dl_write_range.a_faithful_response_is_accepted");
-        V_ASSERT(r1 == (int)cut, "C04.dl_write_range.consumes_the_whole_piece");
-        if(r1 == 0) fed_ok = 0;
-        if(cut < n) {
-            int r2 = dl_write_range(dl, resp + cut, n - cut);
-            V_ASSERT(r2 != 0, "C04.dl_write_range.a_faithful_response_is_accepted");
-            V_ASSERT(r2 == (int)(n - cut), "C04.dl_write_range.consumes_the_whole_piece");
-            if(r2 == 0) fed_ok = 0;
+#ifdef VERIF_C04_VIA_CB
+    /* the transport's write callback, REAL body (plain range body: no boundary was announced), optionally with a
+     * client callback chained behind it that always says "all taken" (a progress meter) */
+    if(inn.use_wcb) { bool sw = zck_dl_set_write_cb(dl, c4_user_wcb); V_ASSERT(sw, "C04.zck_dl_set_write_cb.accepts"); }
+#define C4_FEED(p, len) zck_write_chunk_cb((void *)(p), 1, (len), dl)
+#else
+#define C4_FEED(p, len) ((size_t)dl_write_range(dl, (p), (len)))
+#endif
+    int badchunk = -1;
+#ifdef VERIF_C05_CORRUPT
+    /* UNFAITHFUL server: exactly one payload byte differs from B (any position, any non-zero difference) */
+    V_ASSUME(inn.bad < n && inn.flip != 0);
+    resp[inn.bad] ^= inn.flip;
+    { size_t acc = 0; for(int i = 0; i < VERIF_N; i++) if(i < in->nc && req[i]) { if(inn.bad >= acc && inn.bad - acc < in->clen[i]) badchunk = i; acc += in->clen[i]; } }
+    V_ASSERT(badchunk >= 0, "C05.model.corrupted_byte_belongs_to_a_requested_chunk");
+#endif
+    int fed_ok = 1, ncalls = 0; unsigned ucb0 = m_ucb;
+    size_t pl[2] = { cut, n - cut }; const char *pp[2] = { resp, resp + cut };
+    for(int q = 0; q < 2; q++)
+        if(pl[q] > 0 && fed_ok) {      /* a transport stops at the first invocation that does not take everything */
+            size_t rr = C4_FEED(pp[q], pl[q]);
+            ncalls++;
+            if(rr != pl[q]) fed_ok = 0;
+#ifndef VERIF_C05_CORRUPT
+            V_ASSERT(rr != 0, "C04.dl_write_range.a_faithful_response_is_accepted");
+            V_ASSERT(rr == pl[q], "C04.dl_write_range.consumes_the_whole_piece");
+#else
+            /* the invocation that completes the corrupted chunk must not report "all taken" -- also not through a client callback */
+            V_ASSERT(b_chunks[badchunk].valid != -1 || rr != pl[q], "C05.zck_write_chunk_cb.a_checksum_mismatch_is_reported_by_the_callback");
+#endif
         }
-    }
+#ifdef VERIF_C04_VIA_CB
+    V_ASSERT(m_ucb - ucb0 == (inn.use_wcb ? (unsigned)(ncalls - !fed_ok) : 0u), "C05.zck_write_chunk_cb.client_callback_consulted_exactly_for_the_accepted_invocations");
+#endif
     V_ASSERT(zck->error_state == 0, "C04.compose.no_error_raised");
+#ifdef VERIF_C05_CORRUPT
+    c5_after_corrupt(in, zck, req, valid0, badchunk, fed_ok);
+    return;
+#endif
 
     /* ---- 4. what the round achieved ---- */
     for(int i = 0; i < VERIF_N; i++)
@@ -201,8 +263,9 @@ void h_c04_compose(void) {
             V_ASSERT(valid0[i] != 1 || b_chunks[i].valid == 1, "C04.compose.valid_chunks_stay_valid");
         }
 #ifndef VERIF_C04_EMPTY
-    V_ASSERT(zck_missing_chunks(zck) == missing0 - nreq, "C04.compose.missing_count_decreased_by_the_number_of_requested_chunks");
-    V_ASSERT(in->max_ranges >= 0 || zck_missing_chunks(zck) == 0, "C04.compose.an_unlimited_request_leaves_nothing_missing");
+    { int mc1 = zck_missing_chunks(zck);
+      V_ASSERT(mc1 == missing0 - nreq, "C04.compose.missing_count_decreased_by_the_number_of_requested_chunks");
+      V_ASSERT(in->max_ranges >= 0 || mc1 == 0, "C04.compose.an_unlimited_request_leaves_nothing_missing"); }
 #endif
     /* every byte written: inside the extent of a requested chunk (hence of a chunk that was missing), never in the
      * header, never in the extent of a chunk that was not requested; the log IS the payload, in order */
